@@ -201,6 +201,7 @@ Inductive hfun : Type :=
 | HPreSt (key : string)        (* log "pre:<key>:<id>", sum += lim+1 *)
 | HPostSt (key : string)       (* log "post:<key>", sum += 100       *)
 | HSPreJ                       (* stream pre handler of j: log "spre:j" *)
+| HSPostJ                      (* stream post handler of j: log "spost:j" *)
 | HPreLog (key : string)       (* log "pre:<key>"                    *)
 | HPreReent                    (* log "pre:a@<lim>", sum := lim      *)
 (* flow/agent/react/react.go:190 modelPreHandle: append the input to the state's messages, hand
@@ -827,6 +828,7 @@ Definition apply_handler (h : hfun) (v : val) (st : option stv) : option stv * l
           end
       | HPostSt key => (Some (st_logadd s ("post:" ++ key) 100), ["post:" ++ key])
       | HSPreJ => (Some (st_logadd s "spre:j" 0), ["spre:j"])
+      | HSPostJ => (Some (st_logadd s "spost:j" 0), ["spost:j"])
       | HPreLog key => (Some (st_logadd s ("pre:" ++ key) 0), ["pre:" ++ key])
       | HPreReent =>
           match v with
@@ -1129,7 +1131,28 @@ Record call : Type := {
 }.
 
 Definition estep (c : cobj) (r : rstate) : option rstate := sstep (co_depth c) (co_graph c) r.
-Definition einit (c : cobj) (k : call) : rstate := run_init (co_graph c) (ca_in k) (ca_opts k) (ca_max k) None.
+
+(* graph_run.go:866 runner.extractOption: the options handed down to nested graphs are
+   validated before anything runs, whether or not the nested graph executes in this run *)
+Fixpoint check_opts (d : nat) (ns : list node) (os : list copt) : bool :=
+  match extract_opts ns os [] with
+  | Fail _ => false
+  | OK m =>
+      match d with
+      | O => true
+      | S d' =>
+          forallb (fun n => match n_fun n with
+                            | FSub g' => check_opts d' (g_nodes g') (no_sub (opts_of (n_key n) m))
+                            | _ => true
+                            end) ns
+      end
+  end.
+
+Definition einit (c : cobj) (k : call) : rstate :=
+  if check_opts (co_depth c) (g_nodes (co_graph c)) (ca_opts k)
+  then run_init (co_graph c) (ca_in k) (ca_opts k) (ca_max k) None
+  else {| rs_chans := []; rs_next := []; rs_st := None; rs_steps := O; rs_ev := []; rs_res := Some (Fail "other");
+          rs_opts := []; rs_max := O |}.
 
 (* observable of a finished run: rendered result and sorted node-level events.  The messages
    a run produced (model answers, tool messages) are kept as pseudo events "fut:<message>":
